@@ -149,11 +149,13 @@ func (ucr *UnsignedChunkReader) readAndSkip(data ...byte) error {
 
 // Extracts the chunk size from the payload
 func (ucr *UnsignedChunkReader) extractChunkSize() (int64, error) {
-	line, err := ucr.reader.ReadString('\n')
+	// the size line has to fit into the read buffer: ReadSlice fails
+	// instead of growing a buffer for a line that does not end
+	b, err := ucr.reader.ReadSlice('\n')
 	if err != nil {
 		return 0, errMalformedEncoding
 	}
-	line = strings.TrimSpace(line)
+	line := strings.TrimSpace(string(b))
 
 	chunkSize, err := strconv.ParseInt(line, 16, 64)
 	if err != nil || chunkSize < 0 {
@@ -176,6 +178,9 @@ func (ucr *UnsignedChunkReader) readTrailer() error {
 			return err
 		}
 		if v != '\r' {
+			if trailerBuffer.Len() >= maxHeaderSize {
+				return errMalformedEncoding
+			}
 			trailerBuffer.WriteByte(v)
 			continue
 		}
